@@ -1,9 +1,9 @@
 """C13 — every accepted local operation keeps validity around the touched vertices; rejects leave no trace."""
-from . import streams_meshops
+from . import streams_meshops, streams_collapse
 
 ID = 'C13'
-PROPS_MODULE = ['Refine.Props.C13']
-STREAMS = list(streams_meshops.STREAMS)
+PROPS_MODULE = ['Refine.Props.C13', 'Refine.Props.C13Collapse']
+STREAMS = list(streams_meshops.STREAMS) + list(streams_collapse.STREAMS)
 EXPLANATION = (
     'Proved in Lean 4 about the executable model Refine.Model.MeshOps (three cell groups tet/tri/edg as lists of '
     'rows over the concrete vertex-id state machine of C14): every reject path of the trial-vertex frame of '
@@ -32,7 +32,29 @@ EXPLANATION = (
     'with a touched vertex shared by two cells or one cell + one boundary element, removed vertices unreferenced, '
     'positive volume / orientation) is evaluated after every accept, cavity replacement and vertex move, and every '
     'rejected trial must carry the structural hash (all vertices with coordinates and metric, all cells, abstract id '
-    'pool) of its begin record. The python oracles state the same property independently of the Lean driver.')
+    'pool) of its begin record. The python oracles state the same property independently of the Lean driver. '
+    'Collapse package (Props/C13Collapse, model Refine.Model.Collapse on the Grid/Cell/having vocabulary of the C02 '
+    'guards): ref_collapse_edge is the simplicial map node1->node0, so for every abelian group and every alternating '
+    'phi vanishing on repeated vertices the signed boundary chain of the collapsed tets and tris under phi is that of '
+    'the input under phi o sigma (collapse_conforming: cells holding both ends become degenerate and contribute 0); a '
+    'chain-conforming mesh stays conforming after every prefix of every sequence of accepted collapses '
+    '(collapse_signedConforming, collapse_history_conforming; conforming_of_orient: the executable orientation clause '
+    'valid3Orient of C01 gives the hypothesis); over the reals the total signed volume is conserved when node1 is on '
+    'no boundary tri (collapse_volume_interior); node1 is referenced by nothing afterwards '
+    '(collapse_removed_unreferenced); if ref_collapse_edge_manifold allows, no created tet/tri/edg has the vertex set '
+    'of an existing one (collapse_manifold_no_duplicate); if ref_collapse_edge_tet_quality allows (quality threshold '
+    '> 0) every created tet has volume > min_volume and at most one boundary face (collapse_quality_positive); 2-D: '
+    'ref_collapse_edge_twod_orientation allows => every created tri is counter-clockwise (collapse_tri_positive); '
+    'ref_collapse_edge_local_cell allows => no ghost vertex in the stars (collapse_local_owned); '
+    'ref_collapse_to_remove_node1 applies ref_collapse_edge only to a candidate that passed every guard of the chain, '
+    'and otherwise leaves the cells untouched (judge_collapse_guards, toRemoveNode1_applies_guarded). Tie: the real '
+    'ref_collapse_edge_manifold / _local_cell / _cad_constrained / _tet_quality / _tri_quality / _ratio / _normdev / '
+    '_twod_orientation, ref_node_tet_quality / tri_quality / ratio, ref_collapse_edge and '
+    'ref_collapse_to_remove_node1 (white-box include, cavity fall-back recorded and answered unsuccessful on both '
+    'sides) on jittered 2-D/3-D vertex stars with near-degenerate, inverting, duplicate-creating, ghost and '
+    'mixed-element configurations and on random cell soups: decisions, candidate order, ages and the resulting '
+    'sorted cells must be identical, doubles bit for bit; exact-rational python oracle on the C output; run level: '
+    'every collapse_edge begin record of real ref_collapse_pass runs is re-judged by the modelled guard chain.')
 ASSUMPTIONS = [
     'cell indices, the c2n free list and the adjacency chains of ref_cell.c are abstracted to lists of live rows '
     '(their refinement is C14 part B); ref_cell_list_with2 is modelled as "cells containing both vertices", which is '
@@ -46,8 +68,17 @@ ASSUMPTIONS = [
     'refused as degenerate',
     'theorems about volumes and areas hold in exact arithmetic; IEEE rounding is modelled (Float instance, bit-compared), '
     'not verified',
-    'collapse: that substituting node1->node0 keeps the mesh free of overlaps / the faces matched is NOT proved (it needs '
-    'the geometric guards of ref_collapse.c); it is checked on every accepted collapse of the observed runs by localValid',
+    'collapse: chain-level conformity, no-duplicate and positive-volume consequences of the guards are proved '
+    '(Props/C13Collapse); that positively oriented cells with an unchanged boundary chain do not overlap (degree '
+    'argument) is NOT proved; it is checked on every accepted collapse of the observed runs by localValid. '
+    'collapse_eq_cavityReplace (the collapse equals a cavity replace of star(node1) coned from node0, up to the vertex '
+    'order inside the rows) is NOT proved: the chain identity was proved directly instead; the cavity fall-back of '
+    'ref_collapse_to_remove_node1 (form_edge_collapse, enlarge_visible, cavity_ratio/change) is only observed at run level',
+    'collapse guards: REF_NODE_JAC_QUALITY and REF_NODE_RATIO_GEOMETRIC (the defaults of ref_node_create) are the '
+    'modelled branches; the stored metric and log-metric are independent inputs of the op lines; no CAD model '
+    '(ref_geom empty except the REF_GEOM_EDGE flags of the cad op); the adjacency order is that of a grid built by '
+    'successive ref_cell_add (exact for the function-level stream; the run-level stream only uses order-independent '
+    'verdicts)',
     'cavity replacement, smoothing and the pass drivers are not modelled: covered at run level only (localValid after '
     'accept / move; structural hash after reject)',
     'a rejected smoothing attempt restores the coordinates bit for bit but RE-INTERPOLATES the metric from the background '
